@@ -142,6 +142,7 @@ package kvstore
 //@   requires #size: k.tableSize <= 4611686018427387904
 //@   ensures  #ok: result == nil
 //@   ensures  #grown: len(k.tables) >= 1 && len(k.tables) >= old(len(k.tables))
+//@   ensures  #retired [C11 C20]: old(len(k.tables)) > 0 ==> k.tables[len(k.tables)-1] != old(k.tables[len(k.tables)-1])
 //@   ensures  #last_empty [C17]: k.tables[len(k.tables)-1].offset == 0 && forall h uint64 :: !k.tables[len(k.tables)-1].has(h)
 //@   ensures  #kept [C11]: forall t *table.Table :: old(k.owns(t)) ==> k.owns(t)
 //@   ensures  #no_new_keys [C11]: forall t *table.Table, h uint64 :: k.owns(t) && t.has(h) ==> old(k.owns(t)) && old(t.has(h))
